@@ -496,7 +496,16 @@ def named(name, fcn):
     commutes with histogrammar.util.cached and histogrammar.util.serializable (they can be applied in any order).
     """
     if isinstance(fcn, UserFcn) and fcn.name is not None:
-        raise ValueError(f"two names applied to the same function: {fcn.name} and {name}")
+        # a string expression or a ``def`` function wrapped without a name carries its own text / __name__ as an
+        # implicit name; only an explicitly given name conflicts with a new one
+        if isinstance(fcn.expr, basestring):
+            implicit = fcn.expr
+        elif isinstance(fcn.expr, types.FunctionType) and fcn.expr.__name__ != "<lambda>":
+            implicit = fcn.expr.__name__
+        else:
+            implicit = None
+        if fcn.name != implicit:
+            raise ValueError(f"two names applied to the same function: {fcn.name} and {name}")
     if isinstance(fcn, CachedFcn):
         return CachedFcn(fcn.expr, name)
     if isinstance(fcn, UserFcn):
